@@ -116,7 +116,8 @@ impl NamespaceProof {
             None => Some((namespace, namespace)),
         };
         self.validate_nodes_order(proven)?;
-        self.0.verify_complete_namespace(root, raw_leaves, namespace)
+        self.0
+            .verify_complete_namespace(root, raw_leaves, namespace)
     }
 
     /// Verify that the provided *raw* leaves are present and form a contiguous subset of
@@ -191,7 +192,10 @@ impl NamespaceProof {
         // for each tree level. Based on that we can recompute the total amount
         // of leaves in a tree.
         if self.end_idx().saturating_sub(self.start_idx()) == 1 {
-            Some(1 << self.siblings().len())
+            // amount of siblings comes from the network, the tree
+            // it claims must not overflow the shift
+            let tree_levels = u32::try_from(self.siblings().len()).ok()?;
+            1usize.checked_shl(tree_levels)
         } else {
             None
         }
